@@ -46,3 +46,52 @@ class RepoFailure(Exception):
 
 class OutOfRange(Exception):
     """A selector read by a decoder lies outside its range: the harness returns True (input outside the grammar)."""
+
+
+# ---------------------------------------------------------------------------------------------- known findings (engine C)
+def _accepted() -> set:
+    import json
+    import pathlib
+
+    if os.environ.get("VERIF_KF_OFF") == "1":
+        return set()
+    try:
+        kf = json.loads(pathlib.Path("/verif/known_findings.json").read_text())
+    except OSError:
+        return set()
+    return {f["label"] for f in kf.get("findings", []) if f.get("engine") == "C"}
+
+
+ACCEPTED = _accepted()
+
+
+def judge(labels) -> bool:
+    """labels: the violated clauses found on this input, each a stable label ('<clause>:<site or input class>').
+    Labels listed in known_findings.json are accepted (reported once as KNOWN-FINDING by the driver); any other label
+    is a violation: raised as RepoFailure so that the label shows in the counterexample and in the native replay."""
+    rest = sorted({l for l in labels if l not in ACCEPTED})
+    if rest:
+        raise RepoFailure("; ".join(rest))
+    return True
+
+
+class untraced:
+    """Run the oracle without CrossHair's bytecode tracing (no-op outside CrossHair). Only for oracle code whose
+    inputs are concrete on every path; the code under test is always traced."""
+
+    def __enter__(self):
+        self.cm = None
+        try:
+            from crosshair.tracers import NoTracing, is_tracing
+
+            if is_tracing():
+                self.cm = NoTracing()
+                self.cm.__enter__()
+        except ImportError:
+            pass
+        return self
+
+    def __exit__(self, *a):
+        if self.cm is not None:
+            self.cm.__exit__(*a)
+        return False
